@@ -118,9 +118,8 @@ class NsRun:
             self.cov["kernel_edges_confirming_spec"] += st["OK"] + len(traces) - nun
             return
         traces = [b["trace"] for b in bad if b.get("trace")]
-        for b in bad:
-            if b["status"] == "unreach" and not b.get("trace"):
-                log("unreachable source state on %s: %s" % (target, b.get("why")))
+        self.cov.setdefault("edges_with_unreachable_source_state", {})
+        self.cov["edges_with_unreachable_source_state"][target] = self.cov["edges_with_unreachable_source_state"].get(target, 0) + st["Unreach"]
         self.judge(target, traces)
 
     def judge(self, target, traces):
